@@ -31,7 +31,7 @@ def candidate_params(desc, pars):
 
 class CompileCase:
     def __init__(self, M, rng: random.Random, desc, pars, symtype, sym_keys=(), opts=None, ops=None,
-                 own_symbols=True, extra_params=None, prestep=None):
+                 own_symbols=True, extra_params=None, prestep=None, fixed_from=None, fixed_prob=0.0, stacked=False, reuse=None):
         import casadi as cs
 
         NE, CE = drive.engines(M)
@@ -39,6 +39,7 @@ class CompileCase:
         self.opts = dict(opts or {})
         self.XX = getattr(cs, symtype)
         self.sym_keys = list(sym_keys)
+        self.fixed = {}  # (element id, variable) -> number supplied instead of a symbol
         override = {}
         self.parameters = {}
         self.pvalues = {}
@@ -51,7 +52,20 @@ class CompileCase:
         bare_ok = rng.random() < 0.45
         bare_used = set()
         self.param_name = {}  # (element id | '#', attribute) -> declared name
+        # stacked: the symbolic element parameters are the entries of ONE vector symbol `p` declared as a
+        # single parameter (`p = SX.sym("p", k)`, `Link(..., critical_density=p[0], ...)`, parameters={"p": p})
+        stack = [k_ for k_ in self.sym_keys if k_[0] != "#"] if stacked else []
+        pvec = self.XX.sym("p", len(stack)) if len(stack) >= 2 else None
+        self.stacked = pvec is not None
         for (eid, attr) in self.sym_keys:
+            if pvec is not None and eid != "#":
+                i_ = stack.index((eid, attr))
+                override[(eid, attr)] = pvec[i_]
+                self.param_name[(eid, attr)] = ("p", i_)
+                if "p" not in self.parameters:
+                    self.parameters["p"] = pvec
+                    self.pvalues["p"] = [float((linkd.get(e_) or orgd.get(e_))[a_]) for (e_, a_) in stack]
+                continue
             if eid == "#":
                 name = attr
                 s = self.XX.sym(name)
@@ -75,7 +89,7 @@ class CompileCase:
             ops = D.random_ops(desc, rng)  # live enumeration order != description order
         # the network's own name is a free label too
         self.net_name = rng.choice(ODD_NET_NAMES) if rng.random() < 0.3 else None
-        self.built = D.build(M, desc, ops, param_override=override, net_name=self.net_name)
+        self.built = D.build(M, desc, ops, param_override=override, net_name=self.net_name, reuse=reuse)
         self.engine = CE(symtype)
         self.spars = spars
         kw = drive.step_pars(spars)
@@ -104,6 +118,21 @@ class CompileCase:
             drive.do_step(self.built.net, self.via, rng=rng, engine=self.engine, **self.opts, **kw)
         else:
             ic, self.syms = drive.sym_init(M, self.built, symtype, shuffle_keys=(rng if rng.random() < 0.6 else None))
+            # some controls / disturbances may be supplied as plain numbers (a fixed demand, a fixed
+            # metering rate): they are then constants of the function, not arguments
+            if fixed_from is not None and rng.random() < fixed_prob:
+                lay = D.var_layout(desc)
+                cands = [(eid, name) for eid, L in lay.items() for grp in ("actions", "disturbances") for name, n in L[grp] if n > 0]
+                chosen = [c for c in cands if rng.random() < 0.4] or ([rng.choice(cands)] if cands else [])
+                for eid, name in chosen:
+                    x = fixed_from[eid][name]
+                    xs = list(x) if isinstance(x, list) else [x]
+                    if any(t != t or t in (float("inf"), float("-inf")) for t in xs):
+                        continue
+                    form = rng.choice(("float", "array", "DM")) if len(xs) == 1 else rng.choice(("array", "DM"))
+                    num = float(xs[0]) if form == "float" else (np.array(xs, dtype=float) if form == "array" else cs.DM(xs))
+                    ic[self.built.el(eid)][name] = num
+                    self.fixed[(eid, name)] = x
             drive.do_step(self.built.net, self.via, rng=rng, init_conditions=ic, engine=self.engine, **self.opts, **kw)
         self.order = C.live_order(self.built)
         # the function may be requested from the stepping engine object, from another engine object of
@@ -123,14 +152,28 @@ class CompileCase:
         arguments, as in the README (`to_function(net=net, parameters=..., T=T)`); only legal without
         flow outputs (with them the library itself refuses the duplicate keyword)."""
         other = {k: v for k, v in self.spars.items() if v is not None and (also_keywords or k not in self.parameters)}
-        return self.compile_engine.to_function(
-            self.built.net, compact=compact, more_out=more_out,
-            parameters=(self.parameters or None), **other)
+        # the compactness level is documented by inequalities (<= 0, == 1, > 1): any integer of the class
+        # asks for the same function
+        level = compact
+        if D.FORMS["rng"] is not None and D.FORMS["rng"].random() < 0.3:
+            level = D.FORMS["rng"].choice({0: (0, -1, -4), 1: (1,), 2: (2, 3, 7)}[min(max(compact, 0), 2)])
+        vals = {"net": self.built.net, "compact": level, "more_out": more_out, "parameters": (self.parameters or None)}
+        return D.callform(self.compile_engine.to_function, D.ORDER["to_function"], vals, 1, extra=other)
+
+    def effective(self, vals):
+        """`vals` with the variables that were supplied as numbers set to those numbers."""
+        if not self.fixed:
+            return vals
+        out = {k: dict(d) for k, d in vals.items()}
+        for (eid, name), x in self.fixed.items():
+            out[eid][name] = list(x) if isinstance(x, list) else x
+        return out
 
     def call(self, F, vals, compact, more_out, pvalues=None):
         pv = self.pvalues if pvalues is None else pvalues
-        return C.call_positional(F, self.desc, self.order, vals, compact, more_out,
-                                 params=({k: pv[k] for k in self.parameters} if self.parameters else None))
+        return C.call_positional(F, self.desc, self.order, self.effective(vals), compact, more_out,
+                                 params=({k: pv[k] for k in self.parameters} if self.parameters else None),
+                                 fixed=set(self.fixed))
 
 
 def numpy_twin_next(M, desc, vals, pars, opts=None, ops=None, scalar_shape="vec1", int_dtype=False):
